@@ -138,16 +138,27 @@ def trafoMatrix (knots ck rho : List α) (k q : Nat) (norm : α) (nNew nOld : Na
 for i < stride1: for j < nNew: for l < nOld: for k < stride2:
   coefficients[i*stride2*nNew + j*stride2 + k] += trafo[j*nOld + l] * old[i*stride2*nOld + l*stride2 + k];
 ```
-(`float += double*float`: product and sum in double, one rounding to float on the store). -/
+(`float += double*float`: product and sum in double, one rounding to float on the store), innermost first. -/
+def cellStep (trafo old : Nat → α) (stride2 nOld i j l k : Nat) (acc : α) : α :=
+  A.rnd (A.add acc (A.mul (trafo (j*nOld + l)) (old (i*stride2*nOld + l*stride2 + k))))
+
+def kLoop (trafo old : Nat → α) (stride2 nNew nOld i j l : Nat) (c : Array α) : Array α :=
+  loopN stride2 (fun k c => c.modify (i*stride2*nNew + j*stride2 + k) (cellStep trafo old stride2 nOld i j l k)) c
+
+def lLoop (trafo old : Nat → α) (stride2 nNew nOld i j : Nat) (c : Array α) : Array α :=
+  loopN nOld (fun l c => kLoop trafo old stride2 nNew nOld i j l c) c
+
+def jLoop (trafo old : Nat → α) (stride2 nNew nOld i : Nat) (c : Array α) : Array α :=
+  loopN nNew (fun j c => lLoop trafo old stride2 nNew nOld i j c) c
+
 def coefLoops (trafo : Nat → α) (old : Nat → α) (stride1 stride2 nNew nOld : Nat) (init : Array α) : Array α :=
-  loopN stride1 (fun i c =>
-    loopN nNew (fun j c =>
-      loopN nOld (fun l c =>
-        loopN stride2 (fun k c =>
-          c.modify (i*stride2*nNew + j*stride2 + k) fun acc =>
-            A.rnd (A.add acc (A.mul (trafo (j*nOld + l)) (old (i*stride2*nOld + l*stride2 + k))))) c) c) c) init
+  loopN stride1 (fun i c => jLoop trafo old stride2 nNew nOld i c) init
 
 def setAt {β : Type} (l : List β) (i : Nat) (v : β) : List β := l.set i v
+
+/-- `std::copy(strides, strides+ndim, this->strides)` -/
+def restride (l : List (CDim α)) (strides : List Nat) : List (CDim α) :=
+  l.zipIdx.map fun (e, i) => { e with stride := strides.getD i 0 }
 
 /-- `splinetable::convolve(dim, conv_knots, n_conv_knots)`; `none` when `dim ≥ ndim` (undefined in C). -/
 def convolve (T : CTable α) (dim : Nat) (ck : List α) : Option (CTable α) :=
@@ -172,7 +183,6 @@ def convolve (T : CTable α) (dim : Nat) (ck : List α) : Option (CTable α) :=
     let extLo := if A.lt d.extLo (getK d.knots d.order) then getK rho 0 else getK rho convorder
     let extHi := A.add d.extHi (getK ck 0)
     let d' : CDim α := { order := convorder, nknots := nRho, naxes := nNew, stride := 0, knots := rho, extLo := extLo, extHi := extHi }
-    let dims := (setAt T.dims dim d').zipIdx.map fun (e, i) => { e with stride := strides.getD i 0 }
-    some ⟨dims, coef⟩
+    some ⟨restride (setAt T.dims dim d') strides, coef⟩
 
 end PsV
